@@ -2,60 +2,110 @@
 (* Reference model of mpf.core.machine_vars.MachineVariables as far as persistence is concerned:   *)
 (* the persisted subset is handed to the data manager (save_all) whenever a persistent variable    *)
 (* changes or has an expiry to refresh; at boot the stored variables are loaded unless their       *)
-(* expiry time has passed.  Every variable name has a fixed policy (persist, expire seconds) which *)
-(* its owner applies with configure_machine_var() before each set_machine_var(), as credits, game, *)
-(* settings and service code do.  Time is the wall clock in abstract units.                        *)
+(* expiry time has passed.  Every variable name has a fixed policy (persist, expire seconds).      *)
+(* Two kinds of variables:                                                                         *)
+(*  - created by code at run time (declared = FALSE): the owner applies the policy with            *)
+(*    configure_machine_var() before each set_machine_var(), as credits, game, settings and        *)
+(*    service code do; the variable does not exist until it is set or loaded;                      *)
+(*  - DECLARED IN THE CONFIG (declared = TRUE; `machine_vars:` section with initial_value,          *)
+(*    value_type, persist - like master_volume in mpfconfig.yaml): the variable exists from every  *)
+(*    boot on; it starts from the value that was persisted and from the configured initial value   *)
+(*    (value id `init`) only when nothing was persisted; code sets it with a bare                  *)
+(*    set_machine_var(); the config section has no expiry (expire = 0).                            *)
+(*    `pdefault`: the config does not spell out `persist:` (the documented default, true, applies). *)
+(* Time is the wall clock in abstract units.                                                       *)
+(* Deviations: named behaviours of the code as it is that are NOT part of the design (the          *)
+(* properties below are checked with Deviations = {}; a recorded execution that only a deviation   *)
+(* explains is reported under the name of that deviation):                                         *)
+(*  "DefaultPersistLostOnReload": _load_initial_machine_vars re-applies the persist flag of a      *)
+(*    declared variable that was loaded from disk from the RAW config element (`element.get(       *)
+(*    'persist', False)`), so a variable that is persistent by default is not persistent any more  *)
+(*    after the first boot that loaded it.                                                         *)
 EXTENDS Integers, FiniteSets, TLC
-CONSTANTS Configs,     \* set of policies: [name -> [persist: BOOLEAN, expire: Nat]] (0 = no expiry)
+CONSTANTS Configs,     \* set of policies: [name -> [persist: BOOLEAN, expire: Nat (0 = no expiry),
+                       \*                            declared: BOOLEAN, init: value id, pdefault: BOOLEAN]]
+          Deviations,
           Vals,        \* value ids
           Advs, Downs, \* possible clock advances / power-off durations
           MaxTime, MaxOps
 VARIABLES cfg,         \* the policy in force
-          mv,          \* [name -> [present, v, timeout]]  MachineVariables.machine_vars (timeout 0 = None)
+          mv,          \* [name -> [present, v, timeout, pers]]  MachineVariables.machine_vars (timeout 0 = None,
+                       \*                                   pers = the variable's persist flag)
           disk,        \* [name -> [present, v, expire]]   what the data manager was last handed
           now, nops, act
 vars == <<cfg, mv, disk, now, nops, act>>
 Names == DOMAIN cfg
-Absent == [present |-> FALSE, v |-> 0, timeout |-> 0]
+Absent == [present |-> FALSE, v |-> 0, timeout |-> 0, pers |-> FALSE]
 NoDisk == [present |-> FALSE, v |-> 0, expire |-> 0]
-Snapshot(m) == [k \in Names |-> IF cfg[k].persist /\ m[k].present
+\* _load_initial_machine_vars: a declared variable that was not loaded starts from its initial value
+Fresh(k) == IF cfg[k].declared THEN [present |-> TRUE, v |-> cfg[k].init, timeout |-> 0, pers |-> cfg[k].persist]
+            ELSE Absent
+\* a variable that was loaded from the store: set with persist=True; then the config's flag for a declared one
+Loaded(k, v) == [present |-> TRUE, v |-> v, timeout |-> 0,
+                 pers |-> IF ~cfg[k].declared THEN TRUE
+                          ELSE IF "DefaultPersistLostOnReload" \in Deviations /\ cfg[k].pdefault THEN FALSE
+                          ELSE cfg[k].persist]
+Snapshot(m) == [k \in Names |-> IF m[k].pers /\ m[k].present
                                 THEN [present |-> TRUE, v |-> m[k].v, expire |-> m[k].timeout] ELSE NoDisk]
-Init == /\ cfg \in Configs /\ mv = [k \in Names |-> Absent] /\ disk = [k \in Names |-> NoDisk]
+Init == /\ cfg \in Configs /\ mv = [k \in Names |-> Fresh(k)] /\ disk = [k \in Names |-> NoDisk]
         /\ now = 0 /\ nops = 0 /\ act = [op |-> "init"]
-\* configure_machine_var(n, persist, expire_secs) followed by set_machine_var(n, v)
+\* [configure_machine_var(n, persist, expire_secs) followed by] set_machine_var(n, v)
 Set(n, v) ==
     /\ nops < MaxOps /\ nops' = nops + 1
     /\ LET p == cfg[n]
            to == IF p.expire > 0 THEN now + p.expire ELSE 0
            changed == ~mv[n].present \/ mv[n].v # v
-           m2 == [mv EXCEPT ![n] = [present |-> TRUE, v |-> v, timeout |-> to]]
+           pers == IF p.declared THEN mv[n].pers ELSE p.persist
+           m2 == [mv EXCEPT ![n] = [present |-> TRUE, v |-> v, timeout |-> to, pers |-> pers]]
        IN /\ mv' = m2
-          /\ disk' = IF p.persist /\ (changed \/ p.expire > 0) THEN Snapshot(m2) ELSE disk
-    /\ act' = [op |-> "set", n |-> n, v |-> v, persist |-> cfg[n].persist, expire |-> cfg[n].expire]
+          /\ disk' = IF pers /\ (changed \/ p.expire > 0) THEN Snapshot(m2) ELSE disk
+    /\ act' = [op |-> "set", n |-> n, v |-> v, persist |-> cfg[n].persist, expire |-> cfg[n].expire,
+               declared |-> cfg[n].declared]
     /\ UNCHANGED <<cfg, now>>
 Adv(d) == /\ nops < MaxOps /\ nops' = nops + 1 /\ now + d <= MaxTime /\ now' = now + d
           /\ act' = [op |-> "adv", d |-> d] /\ UNCHANGED <<cfg, mv, disk>>
 \* power off for `down` units, then boot: load_machine_vars with the expiry check; every loaded variable is set
-\* again with persist=True (and without expiry until its owner configures it again), which rewrites the store
+\* again with persist=True (and without expiry until its owner configures it again), which rewrites the store with
+\* the loaded variables; after that the declared variables that were not loaded get their initial value (which is
+\* not handed to the data manager before the next write)
 Reboot(down) ==
     /\ nops < MaxOps /\ nops' = nops + 1 /\ now + down <= MaxTime /\ now' = now + down
     /\ LET ok(k) == disk[k].present /\ ~(disk[k].expire > 0 /\ disk[k].expire < now + down)
-           m2 == [k \in Names |-> IF ok(k) THEN [present |-> TRUE, v |-> disk[k].v, timeout |-> 0] ELSE Absent]
+           m2 == [k \in Names |-> IF ok(k) THEN Loaded(k, disk[k].v) ELSE Fresh(k)]
        IN /\ mv' = m2
-          /\ disk' = IF \E k \in Names : ok(k) THEN Snapshot(m2) ELSE disk
+          /\ disk' = IF \E k \in Names : ok(k)
+                     THEN [k \in Names |-> IF ok(k) THEN [present |-> TRUE, v |-> disk[k].v, expire |-> 0] ELSE NoDisk]
+                     ELSE disk
     /\ act' = [op |-> "reboot", down |-> down] /\ UNCHANGED cfg
 Next == \/ \E n \in Names, v \in Vals : Set(n, v)
         \/ \E d \in Advs : Adv(d)
         \/ \E d \in Downs : Reboot(d)
 Spec == Init /\ [][Next]_vars
 \* ------------------------------------------------------------------------------------ properties
-\* the statement: persistent variables reload with equal values unless their expiry time has passed
+\* the statement: persistent variables reload with equal values unless their expiry time has passed - whatever the
+\* value, also for variables declared in the config: their initial value is used only when nothing was persisted
 PersistReload ==
     [][ act'.op = "reboot" =>
           \A n \in Names : (cfg[n].persist /\ mv[n].present) =>
               IF mv[n].timeout > 0 /\ mv[n].timeout < now' THEN ~mv'[n].present
               ELSE mv'[n].present /\ mv'[n].v = mv[n].v ]_vars
-\* why it holds: the store always mirrors the persistent variables
-StoreInSync == \A n \in Names : (cfg[n].persist /\ mv[n].present) =>
-                   disk[n].present /\ disk[n].v = mv[n].v /\ disk[n].expire = mv[n].timeout
+\* a declared variable exists after every boot; one that is not persisted restarts from its initial value, and one
+\* that still has (or was set back to) its initial value keeps it over a reboot
+DeclaredRestart ==
+    [][ act'.op = "reboot" =>
+          \A n \in Names : cfg[n].declared =>
+              /\ mv'[n].present
+              /\ ~cfg[n].persist => mv'[n].v = cfg[n].init
+              /\ mv[n].v = cfg[n].init => mv'[n].v = cfg[n].init ]_vars
+DeclaredExists == \A n \in Names : cfg[n].declared => mv[n].present
+\* a variable the config / its owner marks persistent is marked persistent
+MarkedPersistent == \A n \in Names : mv[n].present => (cfg[n].persist => mv[n].pers)
+\* "the file keeps it": the store f mirrors the persistent variables of m; only a declared variable that has its
+\* initial value may be missing from the store (it restarts from that value anyway)
+Keeps(f, m) == \A n \in Names : (cfg[n].persist /\ m[n].present) =>
+                   \/ f[n].present /\ f[n].v = m[n].v
+                   \/ ~f[n].present /\ cfg[n].declared /\ m[n].v = cfg[n].init
+\* why PersistReload holds: the store always mirrors the persistent variables
+StoreInSync == /\ Keeps(disk, mv)
+               /\ \A n \in Names : (cfg[n].persist /\ mv[n].present /\ disk[n].present) => disk[n].expire = mv[n].timeout
 =============================================================================
